@@ -250,19 +250,15 @@ Theorem C04_async_stores_persist : forall ops st, wf_st st -> NoDup (live (v_wr 
     NoDup (map fst log) /\ forall a v, In (a, v) log -> mget (v_mem (snd (avrun ops st))) a = v.
 Proof. exact async_stores_persist. Qed.
 (* FuseDevWriter.  Full statement: every regular async operation (all but async_write_all of an empty buffer, which
-   does nothing at all) is its synchronous counterpart.  Where async_write_from_at puts the file data is read from
-   the source (Gen/AsyncTransport.v): the statement fails exactly when that is the start of the buffer instead of
-   buf + len (defect: bytes buffered earlier are overwritten and stale bytes get committed). *)
+   does nothing at all) is its synchronous counterpart, for every state.  Where async_write_from_at puts the file data
+   is read from the source on every run (Gen/AsyncTransport.v); it was refuted while that was the start of the buffer
+   (bytes buffered earlier overwritten, stale bytes committed) and is proved outright since the fix c67a85c. *)
 Definition C04_async_fusedev_full : Prop := async_fusedev_full async_wfrom_at_len.
-Theorem C04_async_fusedev_refuted_iff : ~ C04_async_fusedev_full <-> async_wfrom_at_len = false.
-Proof. exact (async_fusedev_refuted_iff async_wfrom_at_len). Qed.
-Theorem C04_async_fusedev_when_at_len : async_fusedev_full true.
-Proof. exact async_fusedev_full_true. Qed.
-(* in any case it holds whenever the target of async_write_from_at has written nothing yet (a fresh split-off data
-   writer, the way the server uses it) *)
-Theorem C04_async_fusedev_partial : forall at_len a st, fa_regular a = true -> fa_fresh a st ->
-  afstep at_len a st = fstep (fdesugar a) st.
-Proof. exact async_fusedev_partial. Qed.
+Theorem C04_async_fusedev : C04_async_fusedev_full.
+Proof. exact async_fusedev_full_now. Qed.
+(* how that defect would show up again: the statement fails exactly when the data goes to the start of the buffer *)
+Theorem C04_async_fusedev_refuted_iff : forall at_len, ~ async_fusedev_full at_len <-> at_len = false.
+Proof. exact async_fusedev_refuted_iff. Qed.
 Theorem C04_async_fusedev_write_all_empty : forall at_len i st w, nth_error (f_ws st) i = Some w ->
   afstep at_len (FAWriteAll i []) st = (fobs (ROk 0 []) w, st).
 Proof. exact async_write_all_empty. Qed.
@@ -391,9 +387,8 @@ Print Assumptions C04_async_op_same.
 Print Assumptions C04_async_run_same.
 Print Assumptions C04_async_run.
 Print Assumptions C04_async_stores_persist.
+Print Assumptions C04_async_fusedev.
 Print Assumptions C04_async_fusedev_refuted_iff.
-Print Assumptions C04_async_fusedev_when_at_len.
-Print Assumptions C04_async_fusedev_partial.
 Print Assumptions C04_async_fusedev_write_all_empty.
 Print Assumptions C04_async_fusedev_run.
 Print Assumptions C04_adapter.
